@@ -248,6 +248,11 @@ fn dump_stats() {
 
 /// Called by every fuzz target for each input: judge `case` with `check`.
 pub fn fuzz_one<C: Serialize>(property: &str, case: &C, check: impl FnOnce(&C) -> CaseResult) {
+    // libfuzzer-sys installs a panic hook that aborts the process; several oracles *expect* panics
+    // (panic parity with str, "rejects cleanly") and catch them, so the hook is replaced before the
+    // first case runs. Violations are reported through our own JSON file + abort below.
+    static HOOK: std::sync::Once = std::sync::Once::new();
+    HOOK.call_once(|| std::panic::set_hook(Box::new(|_| {})));
     let r = std::panic::catch_unwind(std::panic::AssertUnwindSafe(|| check(case)));
     let r = match r {
         Ok(r) => r,
@@ -268,8 +273,6 @@ pub fn fuzz_one<C: Serialize>(property: &str, case: &C, check: impl FnOnce(&C) -
         unsafe {
             atexit(dump_at_exit);
         }
-        // a violation is reported through our own JSON file; keep libFuzzer's output small
-        std::panic::set_hook(Box::new(|_| {}));
     }
     let s = g.as_mut().unwrap();
     match r {
